@@ -597,6 +597,8 @@ def _dirnode_rule(r, idx):
             gn = FlowNorm(g)
             node = [n for n in g.cfg().nodes if any(cc is c for cc in node_calls(n))]
             a0 = arg(c, 0, "modifier")
+            if a0 is not None and node:
+                a0 = gn.resolve(node[0], a0)
             ok = False
             what = src(g, a0) if a0 is not None else "nothing"
             if isinstance(a0, ast.Attribute) and a0.attr == "modify" and isinstance(a0.value, ast.Name) and node:
